@@ -1,5 +1,6 @@
 import HcipyVerif.Model.Jones
 import HcipyVerif.Model.FftIndex
+import HcipyVerif.Model.NearField
 
 /-!
 # Passive optics (executable model for the passive half of C07) — core Lean only
@@ -89,4 +90,17 @@ def gaussKerF (M : Nat) (n : Int) : Cx K := iPow ((-(n * ((4 / M : Nat) : Int)) 
 def gaussKerB (M : Nat) (n : Int) : Cx K := iPow (((n * ((4 / M : Nat) : Int)) % 4).toNat)
 
 end gauss
+/-! ### Round 5: the knife-edge row exactly, for every internal length
+
+`knifeRow` at the formal phase sums `Fft.PSum` (finite sums of `c·exp(2πi t)`, `c`, `t` rational, exact `+` and `·`; the scalar type the
+C01/C04 drivers run their FFT pipelines at): the DFT kernels `exp(∓2πi n/M)` are monomials for *every* `M` (`NearField.pKerF/pKerB`), a
+Gaussian rational `a + b i` is `a + b·exp(2πi/4)`.  Driver op `knifep`. -/
+
+def cxToPSum (z : Cx Rat) : Fft.PSum := NearField.psumOfGRat ⟨z.re, z.im⟩
+
+/-- `lyot · crop(ifft(fft(pad(x · apod)) · mask))`, one output pixel, as a formal phase sum. -/
+def knifeRowP (N M start : Nat) (mask apod lyot x : Nat → Cx Rat) (j : Nat) : Fft.PSum :=
+  cxToPSum (lyot j) * knifeRow N M start (NearField.pKerF M) (NearField.pKerB M) (Fft.PSum.ofRat (1 / ((M : Nat) : Rat)))
+    (fun q => cxToPSum (mask q)) (fun i => cxToPSum (x i) * cxToPSum (apod i)) j
+
 end HcipyVerif.Passive
